@@ -603,30 +603,54 @@ theorem flatMap_ext {α β} (l : List α) (f g : α → List β) (h : ∀ x ∈ 
   | cons a l ih => simp [List.flatMap_cons, h a (by simp), ih (fun x hx => h x (by simp [hx]))]
 
 /-! ### the candidate loop -/
-theorem dedup_head (a : PStr) (acc l : List PStr) :
-    ∃ tl, l.foldl (fun acc e => if acc.contains e then acc else acc ++ [e]) (a :: acc) = a :: tl := by
-  induction l generalizing acc with
+theorem dedupLower_head (a : PStr) (acc : List PStr) (seen : List PStr) (l : List PStr) :
+    ∃ tl, (l.foldl (fun (acc : List PStr × List PStr) e =>
+      if acc.2.contains (asciiLower e) then acc else (acc.1 ++ [e], acc.2 ++ [asciiLower e])) (a :: acc, seen)).1 = a :: tl := by
+  induction l generalizing acc seen with
   | nil => exact ⟨acc, rfl⟩
   | cons e l ih =>
     simp only [List.foldl_cons]
     split
-    · exact ih acc
-    · exact ih (acc ++ [e])
+    · exact ih acc seen
+    · exact ih (acc ++ [e]) _
 
-theorem candidates_head (enc : PStr) (rest : List PStr) : ∃ tl, candidates (enc :: rest) = enc :: tl := by
-  unfold candidates
+/-- the first known encoding is the first candidate, whatever BOM or declaration there is -/
+theorem detectorEncodings_head (enc : PStr) (rest : List PStr) (sniffed declared : Option PStr) :
+    ∃ tl, detectorEncodings (enc :: rest) sniffed declared = enc :: tl := by
+  unfold detectorEncodings
   simp only [List.cons_append, List.foldl_cons, List.contains_nil, Bool.false_eq_true, if_false, List.nil_append]
-  exact dedup_head enc [] _
+  exact dedupLower_head enc [] _ _
 
-/-- when the first known encoding converts to a non-empty string, that is `unicode_markup` -/
-theorem unicodeMarkupWith_first (T : MsTables) (enc : PStr) (rest : List PStr) (mode : Mode) (markup : Bytes) (u : PStr)
-    (h : convertWith T enc mode false markup = some u) (hu : u ≠ []) :
-    unicodeMarkupWith T (enc :: rest) mode markup = (some u, false) := by
-  obtain ⟨tl, htl⟩ := candidates_head enc rest
-  unfold unicodeMarkupWith
-  simp only [htl, firstPass, h]
-  have : u.isEmpty = false := by cases u <;> simp_all
-  simp [this]
+/-- a successful conversion by a codec the model decodes is `.ok` -/
+theorem attempt_ok (T : MsTables) (r : PStr) (mode : Mode) (data : Bytes) (u : PStr)
+    (h : convertWith T r mode false data = some u) : attempt T r mode false data = .ok u := by
+  unfold attempt
+  have hc : (codecOf r).isSome = true := by
+    unfold convertWith at h
+    cases hco : codecOf r with
+    | none => simp [hco] at h
+    | some c => rfl
+  unfold codecOf at hc
+  split <;> simp_all
+
+/-- when the first known encoding is found by `find_codec` and converts, that conversion is the result:
+    no later candidate (BOM, declaration, utf-8, windows-1252) is consulted -/
+theorem unicodeDammitWith_first (T : MsTables) (enc r : PStr) (rest : List PStr) (declared : Option PStr) (mode : Mode)
+    (markup : Bytes) (u : PStr) (hne : markup ≠ []) (hf : findCodec enc = some r)
+    (h : convertWith T r mode false (stripBom markup).1 = some u) :
+    unicodeDammitWith T (enc :: rest) declared mode markup = .ok u false (some r) := by
+  unfold unicodeDammitWith
+  simp only [hne, if_false]
+  obtain ⟨tl, htl⟩ := detectorEncodings_head enc rest (stripBom markup).2 declared
+  simp only [htl, pass1, convertFromSt, hf, List.contains_nil, Bool.false_eq_true, if_false, List.nil_append,
+    attempt_ok T r mode _ u h]
+
+theorem runCallsFrom_eq_map (st : ProcState) (cs : List DammitCall) : runCallsFrom st cs = cs.map runCall := by
+  induction cs generalizing st with
+  | nil => rfl
+  | cons c cs ih => simp [runCallsFrom, stepCall, ih]
+
+theorem runCalls_eq_map (cs : List DammitCall) : runCalls cs = cs.map runCall := runCallsFrom_eq_map _ cs
 
 /-! ### the strict decoder accepts exactly the encodings of scalar values -/
 theorem enc2 (b0 b1 : Nat) (h0 : 194 ≤ b0) (h0' : b0 ≤ 223) (h1 : 128 ≤ b1) (h1' : b1 ≤ 191) :
